@@ -150,9 +150,7 @@ def compare_branch(site, routine, exp, first_in, callee_re, ret, M, where, lhs_k
             want_lhs = ''
         else:
             want_lhs = 'varargout{1}'
-        if lhs_kind == 'static':
-            pass        # the static emitter always assigns varargout{1} (known finding D11 for void / pair)
-        elif lhs != want_lhs:
+        if lhs != want_lhs:
             return '%s/%d: outputs assigned %r, expected %r' % (where, exp['arity'], lhs, want_lhs)
         stmts = routine.get('statements', [])
         if ret.k == 'Pair':
@@ -233,13 +231,32 @@ def check(mod, acc, text):
                             callee = r'obj->' + re.escape(m.name) + re.escape(targs).replace(',', r',\s*')
                             first = 1
                         else:
-                            callee = cpp_re.replace(',', r',\s*') + '::' + re.escape(m.name)
+                            callee = cpp_re.replace(',', r',\s*') + '::' + re.escape(m.name) + re.escape(targs).replace(',', r',\s*')
                             first = 0
                         ret = ref_inst.subst_ret(m.ret, menv, d['this'])
                         why = compare_branch(g, routines.get(g.get('id')), e, first, callee, ret, M,
                                              '%s %s %s' % (path, role, name), role)
                         if why:
                             problems.append(why)
+            # property accessors: getter wraps obj->name for the declared type, setter assigns the unwrapped value
+            for m in d['props']:
+                acc_ = p['accessors'].get(m.name, {})
+                t = ref_inst.subst(m.type, d['env'], d['this'])
+                k, info = M.kind(t)
+                g = routines.get((acc_.get('get') or {}).get('id'))
+                s_ = routines.get((acc_.get('set') or {}).get('id'))
+                if g is None or s_ is None:
+                    problems.append('%s property %s: accessor routines missing' % (path, m.name))
+                    continue
+                acc.count('branches_compared', 2)
+                gs = ' '.join(g.get('statements', []))
+                w = M.wrap(t, 'obj->' + m.name)
+                if w and ref_matlab.nows(w) not in ref_matlab.nows(gs):
+                    problems.append('%s property %s: getter %r, expected %r' % (path, m.name, gs[-160:], w))
+                ss = [x for x in s_.get('statements', []) if x.startswith('obj->')]
+                want_set = 'obj->%s = %s%s;' % (m.name, '*' if (k == 'class' and t.marker == '') else '', m.name)
+                if not ss or ref_matlab.nows(ss[-1]) != ref_matlab.nows(want_set):
+                    problems.append('%s property %s: setter %r, expected %r' % (path, m.name, ss[-1:] , want_set))
         elif d['kind'] == 'function' and p['kind'] == 'function':
             got = p['overloads']
             want = []
